@@ -32,11 +32,13 @@ def main():
     import checks_lang
     import checks_proc
     import checks_text
+    import checks_src
 
     table = {}
     table.update(checks_lang.CHECKS)
     table.update(checks_proc.CHECKS)
     table.update(checks_text.CHECKS)
+    table.update(checks_src.CHECKS)
     if a.pid not in table:
         print("unknown property", a.pid)
         return 2
